@@ -291,6 +291,31 @@ async function op_like_batch(req) {
     return {out: out, error: error, direct: direct};
 }
 
+async function op_like_cross(req) {
+    // cross product texts x patterns through the public path; result packed as a string of 0/1 (pattern-major)
+    let rows = [];
+    for (let p of req.patterns) for (let t of req.texts) rows.push([t, p]);
+    let out = [];
+    let warnings = [];
+    let error = null;
+    let packed = '';
+    try {
+        if (req.where) {
+            await rbql.query_table('select NR where like(a1, a2)', rows, out, warnings);
+            let hit = new Set(out.map((r) => r[0]));
+            let parts = [];
+            for (let i = 1; i <= rows.length; i++) parts.push(hit.has(i) ? '1' : '0');
+            packed = parts.join('');
+        } else {
+            await rbql.query_table('select like(a1, a2)', rows, out, warnings);
+            packed = out.map((r) => r[0] === true ? '1' : (r[0] === false ? '0' : '?')).join('');
+        }
+    } catch (e) {
+        error = err_info(e);
+    }
+    return {packed: packed, error: error, n: rows.length};
+}
+
 async function handle(req) {
     switch (req.op) {
         case 'hello': scratch_dir = req.scratch; return {ok: true, node: process.version, js_dir: JS_DIR, rbql_version: rbql.version};
@@ -304,6 +329,7 @@ async function handle(req) {
         case 'query_table': return await op_query_table(req);
         case 'query_batch': return await op_query_batch(req);
         case 'like_batch': return await op_like_batch(req);
+        case 'like_cross': return await op_like_cross(req);
         default: return {error: {cls: 'DriverError', msg: 'unknown op ' + req.op}};
     }
 }
